@@ -359,3 +359,70 @@ Fixpoint sort_di (l : list di) : list di :=
 (* the k nearest by (d2, id) among the stored vectors *)
 Definition brute_force (st : list (N * vec)) (q : vec) (k : nat) : list (N * N) :=
   map (fun x : di => (snd x, fst x)) (firstn k (sort_di (map (fun b => (dist2 q (snd b), fst b)) st))).
+
+(* ---------------------------------------------------------------- executable check of a state
+   (hypothesis of the exactness theorem Hnsw_exact.small_exact_checked; evaluated on the
+   reached states by the correspondence): every id of S has its vector in the cache, all
+   neighbour lists on layers 0..max stay inside S, the entry point is in S, S fits into
+   ef_search, and on layer 0 every id of S is reachable from every id of S. *)
+Definition nbrs_of (e : env) (l : nat) (i : N) : list N :=
+  match get_neighbors e l i with Ok x => x | _ => [] end.
+Definition vec_of (e : env) (i : N) : vec :=
+  match assoc i (cache e) with Some v => v | None => [] end.
+
+Definition inclb (a b : list N) : bool := forallb (fun x => memN x b) a.
+Fixpoint nodupN (l : list N) : bool :=
+  match l with [] => true | x :: t => negb (memN x t) && nodupN t end.
+
+Definition add_new (acc : list N) (j : N) : list N := if memN j acc then acc else acc ++ [j].
+(* one breadth-first round on layer 0 *)
+Definition expand (e : env) (R : list N) : list N :=
+  fold_left add_new (flat_map (nbrs_of e 0) R) R.
+Fixpoint reach (e : env) (n : nat) (R : list N) : list N :=
+  match n with 0 => R | S k => reach e k (expand e R) end.
+
+Definition small_check (pr : params) (ix : index) (ids : list N) : bool :=
+  let e := i_env ix in
+  nodupN ids && (length ids <=? p_efs pr) &&
+  match i_ep ix with Some entry => memN entry ids | None => false end &&
+  forallb (fun i => match assoc i (cache e) with Some _ => true | None => false end) ids &&
+  forallb (fun l => forallb (fun i => match get_neighbors e l i with Ok ns => inclb ns ids | _ => false end) ids)
+          (seq 0 (S (i_maxl ix))) &&
+  forallb (fun s0 => inclb ids (reach e (length ids) [s0])) ids.
+
+
+(* ---------------------------------------------------------------- executable check before a reopen
+   (hypothesis of Hnsw_reopen.reopen_same_checked; evaluated by the correspondence at every
+   reopen): the meta record read back equals the in-memory entry point / max layer, and for
+   every cached id the vector tree returns the cached vector. *)
+Fixpoint vec_eqb (a b : vec) : bool :=
+  match a, b with
+  | [], [] => true
+  | x :: a', y :: b' => (x =? y)%Z && vec_eqb a' b'
+  | _, _ => false
+  end.
+
+(* the vector get_vector would return for id *)
+Definition value_of (e : env) (id : N) : res vec :=
+  match assoc id (cache e) with
+  | Some v => Ok v
+  | None => match lookup (vt e) (vkey id) with
+            | None => ModelErr
+            | Some None => NotFound
+            | Some (Some v) => Ok v
+            end
+  end.
+
+Definition opt_N_eqb (a b : option N) : bool :=
+  match a, b with Some x, Some y => (x =? y)%N | None, None => true | _, _ => false end.
+
+Definition reopen_check (ix : index) : bool :=
+  let e := i_env ix in
+  match get_meta e with
+  | Ok (ep, ml) => opt_N_eqb ep (i_ep ix) && (ml =? i_maxl ix)
+  | _ => false
+  end &&
+  forallb (fun b => match assoc (fst b) (cache e), lookup (vt e) (vkey (fst b)) with
+                    | Some v, Some (Some v') => vec_eqb v v'
+                    | _, _ => false
+                    end) (cache e).
